@@ -188,6 +188,56 @@ def export_case(tmp):
             rec["responses_ok"] = False
         if X2.shape != X.shape or not np.array_equal(X2, X, equal_nan=True):
             rec["features_ok"] = False
+        # a map whose curve numbers have different digit counts (2, 9, 10,
+        # 100): the order of the entries in the file is not the order of
+        # the curves in the map; every exported row still belongs to the
+        # rating next to it
+        import zipfile
+        from nanite import IndentationGroup
+        src = vcommon.REPO / "tests" / "data" / \
+            "fmt-jpk-fd_map1d_2016-11-07.jpk-force-map"
+        rename = {0: 2, 1: 9, 2: 10, 3: 100}
+        rates = {2: 3, 9: 8, 10: 5, 100: 1}
+        mpath = tmpd / "renumbered.jpk-force-map"
+        with zipfile.ZipFile(src) as zi, zipfile.ZipFile(mpath, "w") as zo:
+            for item in zi.infolist():
+                name = item.filename
+                if name.startswith("index/") and name != "index/":
+                    parts = name.split("/")
+                    if int(parts[1]) not in rename:
+                        continue
+                    parts[1] = str(rename[int(parts[1])])
+                    name = "/".join(parts)
+                zo.writestr(name, zi.read(item.filename))
+        h5b = tmpd / "rate_map.h5"
+        expected = {}
+        with warnings.catch_warnings():
+            warnings.simplefilter("ignore")
+            for idnt in IndentationGroup(mpath):
+                idnt.apply_preprocessing(list(cc.P1))
+                idnt.fit_model(model_key="hertz_para")
+                rio.save_hdf5(h5b, idnt, rates[idnt.enum], "verif", "")
+                expected[rates[idnt.enum]] = \
+                    IndentationRater.compute_features(idnt)
+            with h5py.File(h5b, "r") as f:
+                korder = [int(f["analysis"][k].attrs["user rate"])
+                          for k in f["analysis"]]
+            rio.RateManager(h5b).export_training_set(tmpd / "ts_map")
+            Xm, ym = IndentationRater.load_training_set(
+                tmpd / "ts_map", which_type="all", replace_inf=False,
+                impute_zero_rated_nan=False, remove_nan=False)
+        if Xm.shape[0] != len(rates) or [int(v) for v in ym] != korder:
+            rec["order_ok"] = False
+        for row, resp in zip(Xm, ym):
+            wantf = expected.get(int(resp))
+            if wantf is None:
+                rec["responses_ok"] = False
+                continue
+            for a, b in zip(row, wantf):
+                if np.isnan(a) and np.isnan(b):
+                    continue
+                if float(f"{b:.2e}") != a:
+                    rec["features_ok"] = False
     except BaseException as exc:
         if isinstance(exc, (KeyboardInterrupt, SystemExit)):
             raise
